@@ -572,7 +572,13 @@ var c08MACs = []string{
 	"\xaa\xbb\xcc\xdd\xee\xff", "\x02\x00\x00\x00\x00\x01", "\x02\x00\x00\x00\x00\x02", "\x00\x11\x22\x33\x44\x55",
 }
 
-var c08CIDs = []string{"cli", "client-1", "aa-bb-cc-dd-ee-ff", "laptop", "x", "02-00-00-00-00-01", "phone"}
+// c08CIDs are the ClientIDs of queries; the MAC look-alikes are valid ClientID
+// labels which the client index also tries as MAC addresses.
+var c08CIDs = []string{"cli", "client-1", "aa-bb-cc-dd-ee-ff", "laptop", "x", "02-00-00-00-00-01", "phone", "AA-BB-CC-DD-EE-FF", "00-11-22-33-44-5"}
+
+// c08OwnCIDs are the ClientIDs persistent clients are configured with (a
+// MAC-shaped one would be stored as a MAC by setID, so those come as kind m).
+var c08OwnCIDs = []string{"cli", "client-1", "laptop", "x", "phone"}
 
 type c08ID struct{ kind, raw string; bits int }
 
@@ -599,7 +605,7 @@ func c08GenID(r *rand.Rand) c08ID {
 	case 8, 9:
 		return c08ID{"m", vutil.Pick(r, c08MACs), 0}
 	default:
-		id := vutil.Pick(r, c08CIDs)
+		id := vutil.Pick(r, c08OwnCIDs)
 		if r.IntN(8) == 0 {
 			id = strings.ToUpper(id)
 		}
